@@ -678,6 +678,9 @@ class JupiterMoons(object):
         # Checking for type
         if not isinstance(epoch, Epoch):
             raise TypeError("Invalid input types")
+        for value in (X, Y, Z, OMEGA, psi, i, lambda_0, beta_0, D):
+            if not isinstance(value, (int, float)):
+                raise TypeError("Invalid input types")
 
         # Time in centuries since 1900.0
         time_JC_1900 = (epoch.jde() - 2415020.50000) / \
@@ -835,6 +838,9 @@ class JupiterMoons(object):
             X = X_coordinate
             Y = Y_coordinate
             Z = Z_coordinate
+        for value in (R, DELTA, X, Y, Z):
+            if not isinstance(value, (int, float)):
+                raise TypeError("Invalid input types")
 
         # Differential light-time correction:
         # Correction factors for the satellites (index + 1 = No. of satellite)
